@@ -175,7 +175,8 @@ CHECKS["C12"] = dict(
          "decade; excitation magnitudes 1e-12, 1, 1e12; B and H (and J as the inside mask) must be unchanged for magnets, scale as 1/s "
          "for currents and 1/s^3 for dipoles; TriangularMesh status flags and reoriented faces must be identical at every scale.",
     note="Tolerance 1e-7 (1e-5 next to edge extension lines), never sharper than C01's accuracy model for the cell, relative to "
-         "max(|X|, 1e-3 max|X|). 17 known-finding patterns (absolute tolerances in CylinderSegment, triangle_Bfield, TriangularMesh inside test).")
+         "max(|X|, 1e-3 max|X|). The exact special-set lattice (faces, edges, corners, rims, cut planes and one-ulp neighbours) is additionally "
+         "evaluated under exact power-of-two scalings 2^-30..2^30, where every coordinate comparison keeps its outcome: J must be identical.")
 CHECKS["C13"] = dict(
     engine="hist", level="model_checking", design_ref="DESIGN.md §4 C13",
     technique="explicit-state BFS over cut operations on bodies (states = multisets of parts, deduplicated) with the sum-of-parts = whole invariant on the real classes, plus an exhaustive cross-representation menu",
@@ -220,5 +221,27 @@ CHECKS["C19"] = dict(
          "titles announce the unit; objects, styles, caller dicts and global defaults byte-identical afterwards.",
     note="Only the plotly backend's generic traces are inspected (matplotlib consumes the same generic traces; pyvista is outside). "
          "Traces are attributed through a unique style colour per object; decorations are switched off via their style flags.")
+ADD = {
+    "C01": "Every source is additionally evaluated in one call together with a stretched companion body of its class, in both orders (judged where the source alone is right).",
+    "C02": "Attribute forms include later in-place mutation of the caller's array; bodies are also evaluated in batches of 2-3 (same / other local mesh, hollow ring, tetrahedron; list and Collection) with observers inside exactly one body.",
+    "C03": "Sensor observers (static, +a/-a wobble, rotating, micro-tilt paths; off-origin pixels) are moved through the API by the same words as the source: every reading must stay unchanged.",
+    "C04": "Path-length combinations include sensor paths strictly between 1 and the longest path of the call and sensors of unequal path lengths.",
+    "C05": "The leaf cycle contains two CustomSources with different field functions and two TriangularMeshes sharing the identical local mesh (different polarizations) that contain the observer.",
+    "C06": "The source alphabet also holds a body with the identical local mesh as another one (other polarization), a full hollow ring next to a partial segment, and two Cylinders.",
+    "C07": "Functional-interface batches mix partial and full-ring segments and ragged meshes (equal face counts of different geometry next to another count) with observers inside exactly one body; every core function is called twice with the same argument objects.",
+    "C08": "After each call a differential futures probe applies a fixed short history of in-place operations to the involved objects and to freshly built twins (hidden changes: read-only / shared / aliased buffers); single-row observers; exported core functions must leave their input arrays unchanged.",
+    "C09": "rotation=None (unit rotation) is part of the alphabet; all 42 Euler sequences x deg/rad x scalar / length-1 / length-2 angle input are compared with a composition of elementary matrices; live-array aliasing ops (the object's own position / orientation getter output passed back in).",
+    "C10": "Aliasing ops pass the live position array of the operated collection, its first or its last descendant as displacement, anchor or setter value.",
+    "C11": "copy(**kw) transitions: rejected keywords (the original must stay attached) and copy(parent=C).",
+    "C14": "Sources include meshes with three different, permuted extents, one mesh of two differently oriented disconnected parts and a CylinderSegment given beyond 360 deg; loops are split exactly where they cross a body surface.",
+    "C15": "Dipole observers at distances 1e-20..1e-98 where the field is large but representable must give finite values.",
+    "C16": "Variants include vertices that no face refers to at any index and from_ConvexHull with interior points.",
+    "C17": "TriangularMesh vertices / faces (constructor only); 49 generated field functions (7 behaviours for B x 7 for H); every mandatory input unset (omitted / None / set to None) in 8 batch positions must raise MagpylibMissingInput; accepted objects are evaluated with getB and getH.",
+    "C18": "copy() that raises (rejected keyword after the deep copy, content that cannot be deep-copied) must leave the original, its parent link and its parent untouched; model3d traces with array-valued args / kwargs.",
+    "C19": "Animation frames are checked against the path index they announce (also for downsampled paths longer than the allowed frames); paths that turn on the spot; a left-handed Tetrahedron; show() calls that fail (malformed / raising user trace at every argument position, bad backend, bad style keyword, bad canvas) must leave objects, style object identity and defaults untouched.",
+    "C20": "Unobserved cross-leaf histories (two writes to different leaves with no read of obj.style in between; nested dict and underscore keyword mixed in one call) are observed once at the end; styles resolved in one show() pass over several objects of different families must equal the style each object resolves to alone; Triangle and TriangularMesh are modelled with their two families.",
+}
+for _k, _v in ADD.items():
+    CHECKS[_k]["text"] += " " + _v
 _todo = "check not built yet in this session (planned, see DESIGN.md §4); nothing is claimed for it"
 NOT_APPLICABLE = [{"property_id": f"C{i:02d}", "reason": _todo} for i in range(1, 21) if f"C{i:02d}" not in CHECKS]
